@@ -93,3 +93,108 @@ Theorem C07_accounting_jsonline :
 Proof. intros. now apply accounting. Qed.
 Print Assumptions C07_accounting_jsonline.
 
+
+(* ---------------------------------------------------------------------------------------------
+   Pull mode.  The importer has a second entry point, ReadOne (importer.go), for callers who pull
+   the rows themselves instead of running Streamer.Stream.  JL.model.StreamPull.pull_loop is the
+   loop such a caller writes:
+
+       for { row, err := imp.ReadOne(); if row == nil && err == nil { break }
+             if err != nil { note(err); continue }
+             note(nil); if err := exp.Export(row); err != nil { note(err) } }
+
+   where note records a call event (EvCall) in the same trace as Stream's processor calls and Write
+   calls.  JL.model.StreamPull.stream_loop_st is Stream.stream_loop returning, besides the result
+   and the observer state (call counter, Write counter, trace), the importer the loop stopped in. *)
+From JL.model Require Import StreamPull.
+From JL.proofs Require Import StreamPullProofs.
+
+(* stream_loop_st IS the model's Stream loop (the final importer apart). *)
+Theorem C07_stream_loop_st_is_stream_loop :
+  forall (R : Type) (get_row : str -> res R) (export_row : R -> res str)
+         (Sc : Type) (s_scan : Sc -> option str * Sc) (s_err : Sc -> option serr)
+         (wf : nat -> option Z) (proc : nat -> option eclass -> option eclass)
+         (fuel : nat) (i : importer Sc) (o : ost),
+  stream_loop R get_row export_row Sc s_scan s_err wf proc fuel i o
+  = (let '(r, _, o') := stream_loop_st R get_row export_row Sc s_scan s_err wf proc fuel i o in (r, o')).
+Proof. exact stream_loop_st_forget. Qed.
+Print Assumptions C07_stream_loop_st_is_stream_loop.
+
+(* Pull mode = Stream with a tolerant processor.  For every scanner, every importer state (scanner
+   state, current token, `failed` flag), every observer state (numbers of processor calls and Write
+   calls made so far — the processor of Stream is called with its call index —, trace so far),
+   every write-fault schedule and every fuel: the pull loop and Stream's loop under
+   NoFailureProcessor return the same result, stop with the same importer, the same counters and
+   the same trace: the same calls with the same classes and the same Writes with the same buffers
+   and accepted byte counts, in the same order.  A line's outcome does not depend on the entry
+   point that pulls it. *)
+Theorem C07_pull_is_stream :
+  forall (R : Type) (get_row : str -> res R) (export_row : R -> res str)
+         (Sc : Type) (s_scan : Sc -> option str * Sc) (s_err : Sc -> option serr)
+         (wf : nat -> option Z) (fuel : nat) (i : importer Sc) (o : ost),
+  pull_loop R get_row export_row Sc s_scan s_err wf fuel i o
+  = stream_loop_st R get_row export_row Sc s_scan s_err wf NoFailureProcessor fuel i o.
+Proof. exact pull_is_stream_loop. Qed.
+Print Assumptions C07_pull_is_stream.
+
+(* The same against the original loop of JL.model.Stream. *)
+Theorem C07_pull_is_stream_observed :
+  forall (R : Type) (get_row : str -> res R) (export_row : R -> res str)
+         (Sc : Type) (s_scan : Sc -> option str * Sc) (s_err : Sc -> option serr)
+         (wf : nat -> option Z) (fuel : nat) (i : importer Sc) (o : ost),
+  stream_loop R get_row export_row Sc s_scan s_err wf NoFailureProcessor fuel i o
+  = (let '(r, _, o') := pull_loop R get_row export_row Sc s_scan s_err wf fuel i o in (r, o')).
+Proof. exact pull_is_stream_loop_obs. Qed.
+Print Assumptions C07_pull_is_stream_observed.
+
+(* Whole runs.  Pull / PullChunked are the pull loop started as Stream / StreamChunked are (new
+   importer, nothing observed yet, same fuel).  For every input, capacity, reader-fault offset and
+   writer-fault schedule the pulled run is Stream's run under NoFailureProcessor; over the
+   operational scanner, for every chunking as well — and that is again the run over the chunk-free
+   specification (C07_chunking). *)
+Theorem C07_pull_is_stream_run :
+  forall (R : Type) (get_row : str -> res R) (export_row : R -> res str)
+         (wf : nat -> option Z) (C : Z) (s : str) (k : option Z),
+  Pull R get_row export_row wf C s k = Stream R get_row export_row wf NoFailureProcessor C s k.
+Proof. exact Pull_is_Stream. Qed.
+Print Assumptions C07_pull_is_stream_run.
+
+Theorem C07_pull_is_stream_run_chunked :
+  forall (R : Type) (get_row : str -> res R) (export_row : R -> res str)
+         (wf : nat -> option Z) (C : Z) (s : str) (k : option Z) (chunks : list Z),
+  PullChunked R get_row export_row wf C s k chunks
+  = StreamChunked R get_row export_row wf NoFailureProcessor C s k chunks.
+Proof. exact PullChunked_is_StreamChunked. Qed.
+Print Assumptions C07_pull_is_stream_run_chunked.
+
+Theorem C07_pull_any_chunking :
+  forall (R : Type) (get_row : str -> res R) (export_row : R -> res str)
+         (wf : nat -> option Z) (C : Z) (s : str) (k : option Z) (chunks : list Z),
+  match k with Some x => 0 <= x | None => True end ->
+  PullChunked R get_row export_row wf C s k chunks
+  = Stream R get_row export_row wf NoFailureProcessor C s k.
+Proof. exact PullChunked_is_Stream. Qed.
+Print Assumptions C07_pull_any_chunking.
+
+(* A concrete stream, "{}\n1\r\n\nx\n{}" (the toy templates of StreamProofs.Examples: "1" is
+   rejected on input, "x" on output; a blank line is a line), the second Write failing after 0
+   bytes: the pulled run, 1-byte reads included, is this trace, and it is Stream's. *)
+Example C07_pull_example :
+  let wf := fun j : nat => if Nat.eqb j 1 then Some 0 else None in
+  Pull str StreamProofs.Examples.ex_get StreamProofs.Examples.ex_exp wf 8 StreamProofs.Examples.ex_s None =
+    (ROk, [EvCall None; EvWrite [123;125;10] 3;
+           EvCall (Some (EcImport ErrNoWrap));
+           EvCall None; EvWrite [10] 0; EvCall (Some EcWrite);
+           EvCall None; EvCall (Some (EcExport ErrUnsupportedFormat));
+           EvCall None; EvWrite [123;125;10] 3]) /\
+  Stream str StreamProofs.Examples.ex_get StreamProofs.Examples.ex_exp wf NoFailureProcessor 8 StreamProofs.Examples.ex_s None =
+  Pull str StreamProofs.Examples.ex_get StreamProofs.Examples.ex_exp wf 8 StreamProofs.Examples.ex_s None /\
+  PullChunked str StreamProofs.Examples.ex_get StreamProofs.Examples.ex_exp wf 8 StreamProofs.Examples.ex_s None [1;1;1;1;1;1;1;1;1;1;1;1] =
+  Pull str StreamProofs.Examples.ex_get StreamProofs.Examples.ex_exp wf 8 StreamProofs.Examples.ex_s None /\
+  (* a reader fault inside the fourth line: what was read before has its outcome, then io:read *)
+  Pull str StreamProofs.Examples.ex_get StreamProofs.Examples.ex_exp wf 8 StreamProofs.Examples.ex_s (Some 8) =
+    (ROk, [EvCall None; EvWrite [123;125;10] 3;
+           EvCall (Some (EcImport ErrNoWrap));
+           EvCall None; EvWrite [10] 0; EvCall (Some EcWrite);
+           EvCall (Some EcRead)]).
+Proof. vm_compute. repeat split. Qed.
